@@ -5,6 +5,7 @@ import TabulaModel.Model.MapOrderCsv
 import TabulaModel.Model.Process
 import TabulaModel.Model.OptHeap
 import TabulaModel.Model.Extraction
+import TabulaModel.Model.ReaderHist
 namespace Tabula.C03H
 open Tabula Tabula.Session
 
@@ -40,6 +41,63 @@ def pairOf {α β : Type} (sep : String) (f : String → Option α) (g : String 
   match s.splitOn sep with
   | [a, b] => do pure (← f a, ← g b)
   | _ => none
+
+/-! ### reader histories (`Model/ReaderHist.lean`) -/
+
+/-- `-` = header that does not parse, `e` = empty header, else numbers joined by `.` -/
+def parseHeaderNums (s : String) : Option (Option (List Nat)) :=
+  if s == "-" then some none else if s == "e" then some (some [])
+  else ((s.splitOn ".").mapM String.toNat?).map some
+
+/-- members joined by `.`: an integer, or `!` for one that does not parse; `e` = none -/
+def parseMembers (s : String) : Option (List (Option Int)) :=
+  if s == "e" then some []
+  else (s.splitOn ".").mapM fun m => if m == "!" then some none else m.toInt?.map some
+
+/-- `f` free, `x` own but unreadable, `o<int>` own value, `s<stm>.<idx>` member,
+`m<0|1>/<header>/<members>` an object stream -/
+def parseXEntry (s : String) : Option ReaderHist.XEntry :=
+  match s.toList with
+  | ['f'] => some .free
+  | ['x'] => some (.own none)
+  | 'o' :: r => (String.ofList r).toInt?.map fun v => .own (some (.val v))
+  | 's' :: r =>
+    (match (String.ofList r).splitOn "." with
+     | [a, b] => do pure (.inStm (← a.toNat?) (← b.toNat?))
+     | _ => none)
+  | 'm' :: r =>
+    (match (String.ofList r).splitOn "/" with
+     | [d, h, m] => do
+       let h ← parseHeaderNums h
+       let m ← parseMembers m
+       pure (.own (some (.stm { decodes := d == "1", header := h, member := m })))
+     | _ => none)
+  | _ => none
+
+def parseRAccess (s : String) : Option ReaderHist.Access :=
+  match s.toList with
+  | ['c'] => some .clear
+  | 'g' :: r => (String.ofList r).toNat?.map .get
+  | _ => none
+
+def showRObj : Option ReaderHist.Obj → String
+  | some (.val v) => toString v
+  | some (.stm _) => "stm"
+  | none => "-"
+
+def parsePageCall (s : String) : Option ReaderHist.PageCall :=
+  match s.toList with
+  | ['c'] => some .count
+  | ['a'] => some .pages
+  | 'p' :: r => (String.ofList r).toNat?.map .page
+  | _ => none
+
+def showPageAns : ReaderHist.PageAns Nat → String
+  | .err => "err"
+  | .count n => s!"c{n}"
+  | .page p => s!"p{p}"
+  | .all l => s!"a{l.length}"
+
 
 def hexStr (s : String) : Option (List Nat) := (unhex s).map fun b => b.map (·.toNat)
 
@@ -292,6 +350,17 @@ def handle (op : String) (args : List String) : String :=
       let r := (accessRun (fun n => Tabula.MapOrder.assocGet sp n) [] as).2
       ",".intercalate (r.map fun | some v => toString v | none => "-")
     | _, _ => "bad-op"
+  | "c03.objstm", [xref, accesses] =>
+    match listOf "," (pairOf "=" String.toNat? parseXEntry) xref, listOf "," parseRAccess accesses with
+    | some x, some as => ",".intercalate ((ReaderHist.run x ReaderHist.Reader.empty as).map showRObj)
+    | _, _ => "bad-op"
+  | "c03.pages", [root, declared, walk, calls] =>
+    match listOf "," parsePageCall calls with
+    | some cs =>
+      let w : Option (List Nat) := if walk == "-" then none else walk.toNat?.map List.range
+      let f : ReaderHist.TreeFile Nat := { hasRoot := root == "1", declared := declared == "1", walk := w }
+      ",".intercalate ((ReaderHist.pageRun f {} cs).map showPageAns)
+    | none => "bad-op"
   | _, _ => "bad-op"
 
 end Tabula.C03H
